@@ -443,7 +443,7 @@ pub fn run(ctx: &Ctx, st: &mut Stats) -> bool {
 }
 
 pub fn replay(ctx: &Ctx, id: &str, case: &Value, st: &mut Stats) -> bool {
-    if case.get("history_probe").is_some() || case.get("concurrent_callers").is_some() || case.get("miri_seed").is_some() || case.get("coldstart_seed").is_some() {
+    if case.get("history_probe").is_some() || case.get("concurrent_callers").is_some() || case.get("miri_seed").is_some() || case.get("coldstart_seed").is_some() || case.get("hammer_seed").is_some() {
         eprintln!("this record comes from a history / concurrency probe: a single-input replay cannot reproduce it; re-run `./check {id}` (same VERIF_SEED) instead");
         return false;
     }
